@@ -170,8 +170,10 @@ def run_chain(ch, params, knobs, mode, w, stats, violations, decoded):
 
 
 def run(ch, params, decoded=False):
-    knobs = R.draw_knobs(ch)
+    knobs = R.draw_knobs(ch, registries=True)
     chain = ch.chance(1, params["chain_every"], "stratum_chain")
+    if chain:
+        knobs["registry"] = "default"
     violations = []
     stats = {}
     if chain:
@@ -193,6 +195,7 @@ def run(ch, params, decoded=False):
     prefix = R.gen_prefix_ops(ch, params, mode, params.get("max_prefix", 0))
     w = R.start_world(knobs, mode)
     stats["mode=" + mode] = 1
+    stats["registry=" + knobs["registry"]] = 1
     stats["stratum:programs"] = 1
     R.run_prefix_ops(prefix, w, stats)
     exp = ref.run_model(prog)
